@@ -359,6 +359,18 @@ def _deps_fs(body, local, seen=None):
                 q = op_place(o)
                 if q is not None:
                     todo.append((q['l'], None))
+        # calls that receive `&mut l` (parts.extend_from_slice(..), parts.push(..)) fill it from their other arguments
+        for bb, t in body.calls():
+            for a in t['args']:
+                q = op_place(a)
+                if q is None or q['p']:
+                    continue
+                d0 = defs.get(q['l'], [])
+                if len(d0) == 1 and d0[0][0] == 'stmt' and d0[0][3]['rv']['k'] == 'ref' and d0[0][3]['rv'].get('mut') and d0[0][3]['rv']['place']['l'] == l and not [e for e in d0[0][3]['rv']['place']['p'] if e != '*']:
+                    for a2 in t['args']:
+                        q2 = op_place(a2)
+                        if q2 is not None and q2['l'] != q['l']:
+                            todo.append((q2['l'], None))
         if not ds and 1 <= l <= body.d['argc']:
             params.add(l)
             continue
@@ -443,7 +455,7 @@ def chain_keeps_both(ctx):
             r7.inst({'part_list_built_at': mirq.site(b, bb, idx if kind != 'call' else None), 'computed_from_operands': sorted(reached)}, ok=ok, kind=(bb,))
             if not ok:
                 r7.fail('chain/part-list-omits-operand-%s' % ('-'.join(str(k) for k in sorted({1, 2} - reached))), mirq.site(b, bb, idx if kind != 'call' else None), 'a part list of the chained generator is built without operand %s: its elements are missing from the stream (add(repeat(empty), g) yields nothing instead of the elements of g)' % sorted({1, 2} - reached))
-    r7.need(3)
+    r7.need(1)
 
 
 def _deps_fs_field(body, local, fld):
